@@ -313,4 +313,70 @@ def semiApplyArr (n : Nat) (f : PState × Arr2) (b : Vec) : Array Rat :=
 def semiSolveArr (r : Rat → Rat) (n : Nat) (A : Mat) (b : Vec) : Array Rat :=
   semiApplyArr n (semiFactor r n A) b
 
+/-- `symm_pos_semi_definite_solver::compute_inverse_factor(C)`: `C` is `rank × n` with `A⁺ = Cᵀ C`.
+Full rank: `C = I`, `swap_columns_inverted(P, C)`, `trsm<lower,left>(L, C)`; rank deficient:
+`C = Lᵀ` (`L` = first `rank` columns), `(LᵀL)⁻¹` applied from the left, `swap_columns_inverted(P, C)`.
+Entry `(a, c)` is `mget _ a c`. -/
+def semiInverseFactor (n : Nat) (f : PState × Arr2) : Arr2 :=
+  let s := f.1
+  let rank := s.rank.getD n
+  let F : Mat := fun i j => mget s.M i j
+  if rank = n then
+    let cols : Arr2 := Array.ofFn (n := n) fun c =>
+      trsvArr ⟨false, false⟩ true n F (fun i => if i = permInvOf s.P n c.val then 1 else 0)
+    matOf n n fun a c => mget cols c a
+  else
+    let cols : Arr2 := Array.ofFn (n := n) fun c =>
+      cholSolveArr rank f.2 (fun a => F (permInvOf s.P n c.val) a)
+    matOf rank n fun a c => mget cols c a
+
+/-! ## rank-one update of a Cholesky factor (`cholesky_decomposition::update`, `decompositions.hpp`) -/
+
+/-- state of the column loop of `update(alpha, beta, v)`: the factor (entry `(i,j)` = `mget L i j`),
+the working vector `temp`, `beta_prime`, the values whose root was taken so far (kept for the
+driver's exactness test), and "the exception was thrown" -/
+structure UpdState where
+  L : Arr2
+  w : Array Rat
+  bp : Rat
+  xs : Array Rat
+  fail : Bool
+
+/-- column `j` of the update loop, statement by statement (`a = sqrt(alpha)`):
+`Ljj = a L(j,j)`, `dj = Ljj²`, `wj = temp(j)`, `swj2 = beta wj²`, `gamma = dj beta' + swj2`,
+`x = dj + swj2/beta'`; `x <= 0` throws; `L(j,j) = sqrt(x)`; `beta' += swj2/dj`; below the diagonal
+`col *= a`, `temp -= (wj/Ljj) col`, and unless `gamma == 0`: `col *= nLjj/Ljj`,
+`col += (nLjj beta wj/gamma) temp`.  The scaling by `a` and the correction of `temp` happen for
+every column, also when `wj = 0`. -/
+def updStep (r : Rat → Rat) (a beta : Rat) (n : Nat) (j : Nat) (s : UpdState) : UpdState :=
+  if s.fail then s else
+  let Ljj := a * mget s.L j j
+  let dj := Ljj * Ljj
+  let wj := vget s.w j
+  let swj2 := beta * wj * wj
+  let gamma := dj * s.bp + swj2
+  let x := dj + swj2 / s.bp
+  if x ≤ 0 then { s with fail := true } else
+  let nLjj := r x
+  let col (i : Nat) : Rat := a * mget s.L i j
+  let w' (i : Nat) : Rat := if j < i then vget s.w i - wj / Ljj * col i else vget s.w i
+  { L := matOf n n fun i k =>
+      if k = j then
+        (if i = j then nLjj
+         else if j < i then
+           (if gamma = 0 then col i else col i * (nLjj / Ljj) + nLjj * beta * wj / gamma * w' i)
+         else mget s.L i k)
+      else mget s.L i k,
+    w := vecOf n w', bp := s.bp + swj2 / dj, xs := s.xs.push x, fail := false }
+
+/-- `cholesky_decomposition::update(alpha, beta, v)` on the lower factor `L` (row-indexed);
+`beta == 0`: the whole factor is scaled by `sqrt(alpha)` -/
+def cholUpdate (r : Rat → Rat) (alpha beta : Rat) (n : Nat) (L : Arr2) (v : Vec) : UpdState :=
+  if beta = 0 then ⟨matOf n n fun i j => r alpha * mget L i j, vecOf n v, 1, #[], false⟩
+  else iter n (updStep r (r alpha) beta n) ⟨L, vecOf n v, 1, #[], false⟩
+
+/-- the matrix the updated factor has to reproduce: `alpha L Lᵀ + beta v vᵀ` -/
+def updTarget (alpha beta : Rat) (n : Nat) (L : Arr2) (v : Vec) : Mat :=
+  fun i k => alpha * (sum n fun c => mget L i c * mget L k c) + beta * v i * v k
+
 end SharkVerif.LinSolve
